@@ -57,19 +57,21 @@ type world struct {
 	epoch0   uint64
 }
 
-func (w *world) bad(s string) { w.viol[s] = true }
+func (w *world) bad(s string) { sched.Own(func() { w.viol[s] = true }) }
 
 var allSeries = []uint64{1, 2}
 
 func (w *world) query(name string, holds int) {
 	v := w.t.Pin()
 	if v == nil {
-		if !w.closed {
-			w.bad(name + ": no snapshot although the table holds data and is not closed")
-		}
+		sched.Own(func() {
+			if !w.closed {
+				w.bad(name + ": no snapshot although the table holds data and is not closed")
+			}
+		})
 		return
 	}
-	w.pins++
+	sched.Own(func() { w.pins++ })
 	ep := v.Epoch()
 	for i := 0; i < holds; i++ {
 		sched.Yield(name + ":hold")
@@ -113,23 +115,32 @@ func firstLine(s string) string {
 
 // introducer plays the single goroutine that serialises all snapshot transitions.
 func (w *world) introducer() {
-	cur := w.expected[w.t.NextEpoch()-1]
-	// 1. a new batch becomes visible atomically
-	w.expected[w.t.NextEpoch()] = union(cur, batch(400))
-	w.flushed[w.t.NextEpoch()] = union(batch(100), batch(200))
+	// (the world's own bookkeeping goes through sched.Own: a plain call under the controlled scheduler, one mutex in
+	// the free-running -race pass)
+	var cur rows
+	sched.Own(func() {
+		cur = w.expected[w.t.NextEpoch()-1]
+		// 1. a new batch becomes visible atomically
+		w.expected[w.t.NextEpoch()] = union(cur, batch(400))
+		w.flushed[w.t.NextEpoch()] = union(batch(100), batch(200))
+	})
 	w.t.IntroducePart(w.intro)
 	cur = union(cur, batch(400))
 	// 2. flush: memory part p3 is replaced by its file part (files produced beforehand, see template)
-	w.expected[w.t.NextEpoch()] = cur
-	w.flushed[w.t.NextEpoch()] = union(batch(100), batch(200), batch(300))
+	sched.Own(func() {
+		w.expected[w.t.NextEpoch()] = cur
+		w.flushed[w.t.NextEpoch()] = union(batch(100), batch(200), batch(300))
+	})
 	w.t.FlushB(w.flush)
 	w.t.GC()
 	// 3. merge: file parts p1,p2 are replaced by the merged part
-	for _, id := range w.merge.IDs {
-		w.replaced[w.t.PartDir(id)] = true
-	}
-	w.expected[w.t.NextEpoch()] = cur
-	w.flushed[w.t.NextEpoch()] = union(batch(100), batch(200), batch(300))
+	sched.Own(func() {
+		for _, id := range w.merge.IDs {
+			w.replaced[w.t.PartDir(id)] = true
+		}
+		w.expected[w.t.NextEpoch()] = cur
+		w.flushed[w.t.NextEpoch()] = union(batch(100), batch(200), batch(300))
+	})
 	w.t.MergeB(w.merge)
 	w.t.GC()
 }
@@ -151,12 +162,14 @@ func (w *world) snapshotter(name string) {
 	rec.ok, rec.err = w.t.TakeFileSnapshot(dst)
 	// upper bound: the newest epoch the introducer has announced so far (it registers an epoch right before
 	// publishing it). A concurrent Close does not disturb this bound.
-	for e := range w.flushed {
-		if e > rec.endEpoch {
-			rec.endEpoch = e
+	sched.Own(func() {
+		for e := range w.flushed {
+			if e > rec.endEpoch {
+				rec.endEpoch = e
+			}
 		}
-	}
-	w.snaps = append(w.snaps, rec)
+		w.snaps = append(w.snaps, rec)
+	})
 }
 
 // checkSnapshot opens the snapshot directory as a table with the real recovery code and compares.
@@ -261,7 +274,7 @@ func (w *world) checkSnapshot(rec *snapRec) {
 	w.outcome(fmt.Sprintf("epoch+%d rows=%d", epoch-w.epoch0, len(got)))
 }
 
-func (w *world) outcome(s string) { w.outcomes = append(w.outcomes, s) }
+func (w *world) outcome(s string) { sched.Own(func() { w.outcomes = append(w.outcomes, s) }) }
 
 var lastOutcomes []string
 
@@ -303,7 +316,7 @@ func measureSetup(sc scenario, seq *int) sched.Harness {
 		case "snapshot2":
 			threads = append(threads, func() { w.snapshotter("snap2") })
 		case "close":
-			threads = append(threads, func() { w.closed = true; w.t.Close() })
+			threads = append(threads, func() { sched.Own(func() { w.closed = true }); w.t.Close() })
 		default:
 			panic("unknown role " + r)
 		}
@@ -446,7 +459,7 @@ func copyTree(src, dst string) error {
 }
 
 func init() {
-	register(family{Name: "measure", Setup: measureSetup, Scenarios: []scenario{
+	register(family{Name: "measure", RaceOK: true, Setup: measureSetup, Scenarios: []scenario{
 		{Name: "A", Roles: []string{"snapshot", "introducer", "query"}},
 		{Name: "B", Roles: []string{"introducer", "snapshot", "snapshot2"}},
 		{Name: "C", Roles: []string{"snapshot", "longquery", "close"}},
